@@ -115,3 +115,13 @@ ARITY = {
 
 SCALAR_FNS = ["const", "neg", "add", "sub", "mul", "div", "ma1", "ma2", "half", "square", "one"]
 SURROGATE_FNS = {"two_out": 2, "two_out_div": 2, "one_out": 1}  # name -> n outputs
+
+
+def sleepy_square(arg):  # noqa: ANN001, ANN201
+    """(x, seconds): used by the stub-fidelity self-test against the real pool only."""
+    import time
+
+    x, secs = arg
+    if secs:
+        time.sleep(secs)
+    return x * x
